@@ -19,6 +19,8 @@ func main() {
 		cmdCheck(os.Args[2:])
 	case "selftest":
 		cmdSelftest(os.Args[2:])
+	case "replay":
+		cmdReplay(os.Args[2:])
 	default:
 		fmt.Fprintln(os.Stderr, "unknown command")
 		os.Exit(2)
